@@ -47,9 +47,16 @@ impl MultiRecordLog {
         debug!("loading wal");
         loop {
             let file_number = record_reader.read().current_file().clone();
-            let Ok(record) = record_reader.read_record::<MultiPlexedRecord>() else {
-                warn!("Detected corrupted record: some data may have been lost");
-                continue;
+            let record = match record_reader.read_record::<MultiPlexedRecord>() {
+                Ok(record) => record,
+                // io errors are non-recoverable
+                Err(ReadRecordError::IoError(io_err)) => {
+                    return Err(ReadRecordError::IoError(io_err));
+                }
+                Err(ReadRecordError::Corruption) => {
+                    warn!("Detected corrupted record: some data may have been lost");
+                    continue;
+                }
             };
             if let Some(record) = record {
                 match record {
